@@ -77,6 +77,11 @@ def run(R, tier):
             plan.append(('gp', [two[::-1], (k1,)]))
             plan.append(('reverse', [two]))
             plan.append(('reverse', [two[::-1]]))
+            # patterns whose code generation emits a warning (square root of something that is not a Study number, outer exponential
+            # of mixed grades): generated once all the same
+            plan.append(('sqrt', [(k1,)]))
+            plan.append(('sqrt', [(0,) + two if 0 not in two else two]))
+            plan.append(('outerexp', [tuple(dict.fromkeys((k1,) + two))]))
             order = []
             for op, pats in plan:
                 order.append((op, pats, 'int' if op not in ('sqrt',) else 'float', True))
